@@ -159,7 +159,7 @@ func (storeH) Generate(property string, seed uint64, tier string) *Case {
 		case x < 50:
 			op.Kind, op.Labels, op.Flag = "add_workload", lbl(), g.IntN(3) == 0
 		case x < 54:
-			op.Kind, op.Labels = "update_workload", lbl()
+			op.Kind, op.Labels, op.Flag = "update_workload", lbl(), g.IntN(3) == 0
 		case x < 62:
 			op.Kind = "remove_workload"
 		case x < 74:
@@ -521,12 +521,19 @@ func applyStoreOp(ctx context.Context, b *stBackend, op storeOp, viol func(p, ru
 	case "update_workload":
 		old, ok := m.Workloads[op.ID]
 		wl := stWorkloadOf(op)
-		if ok {
+		// (op.Flag: the update names another node / application than the record has: only
+		// part of the workload's keys exist, the update has to be refused as a whole)
+		same := ok && wl.Name == old.Name && wl.Nodename == old.Node
+		if ok && !op.Flag {
 			wl.Name, wl.Nodename = old.Name, old.Node
+			same = true
 		}
 		err = st.UpdateWorkload(ctx, wl)
-		if err == nil && ok {
+		if err == nil && ok && same {
 			old.Labels = op.Labels
+		}
+		if err == nil && ok && !same {
+			viol("C23", "update-under-other-names-accepted", b.name+":update_workload", fmt.Sprintf("%s store accepted updating workload %s under node %s / name %s although it is recorded under node %s / name %s", b.name, op.ID, wl.Nodename, wl.Name, old.Node, old.Name))
 		}
 		if err == nil && !ok {
 			viol("C23", "update-of-missing-accepted", b.name+":update_workload", fmt.Sprintf("%s store accepted updating workload %s which does not exist", b.name, op.ID))
